@@ -13,7 +13,7 @@ Rec == ndJsonDeserialize(IOEnv.TRACE)
 VARIABLES l, run, cfg, viol, hits, nruns, learned, lastDisc, acc, wpos, rxq
 vars == <<l, run, cfg, viol, hits, nruns, learned, lastDisc, acc, wpos, rxq>>
 Rules == {"N1", "N2", "N3", "N4", "D1", "D2", "D3", "D4", "D5", "D6", "E2", "E3", "Q2", "PANIC"}
-SOCKS == {0, 1}
+SOCKS == {0, 1, 2, 3}     \* two UDP sockets, an ICMP socket bound to an identifier, a raw socket
 Add(v, x) == IF Len(v) >= 24 THEN v ELSE Append(v, x)
 RECURSIVE AddAll(_, _)
 AddAll(v, xs) == IF xs = <<>> THEN v ELSE AddAll(Add(v, Head(xs)), Tail(xs))
@@ -60,9 +60,9 @@ RECURSIVE InjectAll(_, _)
 InjectAll(q, rx) ==
   IF rx = <<>> THEN q
   ELSE LET g == Head(rx)
-           isDg == "et" \in DOMAIN g /\ g.et = "ip4" /\ "l4" \in DOMAIN g /\ g.l4 = "udp" /\ g.dst = cfg.my_ip /\ g.did >= 0 /\ g.cs /\ g.wf /\ g.dport \in {6000, 6001}
+           isDg == "et" \in DOMAIN g /\ g.et = "ip4" /\ "sk" \in DOMAIN g /\ g.dst = cfg.my_ip /\ g.did >= 0 /\ g.cs /\ g.wf
        IN IF ~isDg THEN InjectAll(q, Tail(rx))
-          ELSE LET s == g.dport - 6000
+          ELSE LET s == g.sk
                    sc == cfg.socks[s + 1]
                    must == q[s] = <<>> /\ g.size <= sc.rxp /\ sc.rxm >= 1
                IN InjectAll([q EXCEPT ![s] = Append(@, [did |-> g.did, must |-> must, size |-> g.size, src |-> g.src, sport |-> g.sport])], Tail(rx))
@@ -89,9 +89,9 @@ OutStep(a, o, now) ==
            stale == \E i \in 1..Len(a.lrn) : a.lrn[i].ip = nh /\ a.lrn[i].mac = o.dmac
            n1 == P("N1", ~uni \/ nh = <<>> \/ known, <<o.dst, o.dmac, IF stale THEN "expired" ELSE IF ~o.dmu THEN "non-unicast-mac" ELSE "never-learned">>)
            e3 == P("E3", (o.src = cfg.my_ip \/ ("exempt" \in DOMAIN o /\ o.exempt)) /\ o.smac = cfg.my_mac, <<"ip", o.src>>)
-           isMine == "l4" \in DOMAIN o /\ o.l4 = "udp" /\ o.did >= 0 /\ o.sport \in {6000, 6001}
+           isMine == "sk" \in DOMAIN o /\ o.did >= 0
        IN IF ~isMine THEN [a EXCEPT !.v = @ \o e2 \o n2 \o n1 \o e3]
-          ELSE LET s == o.sport - 6000
+          ELSE LET s == o.sk
                    q == acc[s]
                    pos == a.wpos[s]
                    j == Idx(q, LAMBDA x : x.did = o.did)
@@ -129,6 +129,7 @@ Step ==
                       d5 == IF i = 0 THEN << <<l, "D5", s, "unknown-or-duplicate", r.did>> >>
                             ELSE IF skipped THEN << <<l, "D5", s, "lost-or-reordered", r.did>> >>
                             ELSE IF r.diff # -1 \/ r.size # q[i].size \/ r.sport # q[i].sport THEN << <<l, "D5", s, "altered", r.did, r.size, r.diff>> >>
+                            ELSE IF "srct" \in DOMAIN r /\ r.srct # <<>> /\ r.srct # q[i].src THEN << <<l, "D5", s, "wrong-source", r.did, r.srct>> >>
                             ELSE <<>>
                       d6 == IF r.size > r.cap THEN << <<l, "D6", s, r.size, r.cap>> >> ELSE <<>>
                   IN /\ rxq' = [rxq EXCEPT ![s] = IF i = 0 THEN @ ELSE SubSeq(q, i + 1, Len(q))]
@@ -171,7 +172,7 @@ Step ==
                 lost == {s \in SOCKS : \E j \in 1..Len(rxq[s]) : rxq[s][j].must}
                 d5 == IF "drained" \in DOMAIN r /\ lost # {} THEN << <<l, "D5", CHOOSE s \in lost : TRUE, "never-delivered">> >> ELSE <<>>
             IN /\ viol' = AddAll(viol, d3 \o d5)
-               /\ hits' = [hits EXCEPT !["D3"] = @ + Len(acc[0]) + Len(acc[1])]
+               /\ hits' = [hits EXCEPT !["D3"] = @ + Len(acc[0]) + Len(acc[1]) + Len(acc[2]) + Len(acc[3])]
                /\ UNCHANGED <<run, cfg, nruns, learned, lastDisc, acc, wpos, rxq>>
        [] r.ev = "panic" ->
             /\ viol' = Add(viol, <<l, "PANIC", r.msg>>)
